@@ -47,8 +47,7 @@ int KillMemoryGrowth<Base>::init(
         return v;
       });
 
-  this->argParser_.addArgumentCustom(
-      "min_growth_ratio", min_growth_ratio_, PluginArgParser::parseUnsignedInt);
+  this->argParser_.addArgument("min_growth_ratio", min_growth_ratio_);
 
   return Base::init(args, context);
 }
